@@ -152,6 +152,8 @@ class MPS(DNAS):
             cost_reduction_fn: Callable = torch.sum):
         super(MPS, self).__init__(model, cost, input_example, input_shape)
         self.is_training = model.training
+        # convert() forces eval() on the user's model too: remember the status of each of its modules
+        user_training_status = {m: m.training for m in model.modules()}
         self.seed, self._leaf_modules, self._unique_leaf_modules = convert(
             model,
             self._input_example,
@@ -174,6 +176,9 @@ class MPS(DNAS):
         else:
             self.eval()
             self.seed.eval()
+        # the model object passed by the user is left in the mode it was found in
+        for m, t in user_training_status.items():
+            m.training = t
 
     def forward(self, *args: Any) -> torch.Tensor:
         """Forward function for the DNAS model.
